@@ -787,6 +787,106 @@ Definition attr80_window (raw : bytes) : result (option (N * bytes)) :=
   end.
 
 (* ------------------------------------------------------------------ *)
+(* plugins/auth/radius: the hand-written byte handling around the third-party packet parser.
+   MD5 / HMAC-MD5 are external: the digests enter as arguments (oracle) and the model states which slices of the
+   datagram they are compared with. *)
+(* transport.go isAuthenticReply(raw, reqAuth, secret): [d_resp] = MD5(raw[:4] ++ reqAuth ++ raw[20:length] ++ secret),
+   [d_ma] = HMAC-MD5 over the copy with reqAuth at 4..20 and the attribute value zeroed *)
+Definition is_authentic_reply (raw d_resp d_ma : bytes) : result bool :=
+  if lenN raw <? 20 then Ok false else
+  hi <- idx 2 raw;; lo <- idx 3 raw;;
+  let length := hi * 256 + lo in
+  if (length <? 20) || (lenN raw <? length) then Ok false else
+  raw' <- sl 0 length raw;;
+  _h1 <- sl 0 4 raw';; _h2 <- slf 20 raw';; auth <- sl 4 20 raw';;
+  if negb (if list_eq_dec N.eq_dec d_resp auth then true else false) then Ok false else
+  o <- find_attr80 raw';;
+  match o with
+  | None => Ok true
+  | Some off =>
+    _t <- sl 4 20 raw';;                       (* copy(tmp[4:20], reqAuth) *)
+    _z <- sl off (off + 16) raw';;             (* tmp[offset+i] = 0, i < 16 *)
+    w <- sl off (off + 16) raw';;
+    Ok (if list_eq_dec N.eq_dec d_ma w then true else false)
+  end.
+(* coa.go validateRequestAuthenticator: [d] = MD5(raw[:4] ++ 16 zero bytes ++ raw[20:] ++ secret) *)
+Definition validate_request_auth (raw d : bytes) : result bool :=
+  if lenN raw <? 20 then Ok false else
+  _a <- sl 0 4 raw;; _b <- slf 20 raw;; auth <- sl 4 20 raw;;
+  Ok (if list_eq_dec N.eq_dec d auth then true else false).
+(* coa.go validateMessageAuthenticator: [d] = HMAC-MD5 over the copy with bytes 4..20 and the attribute value zeroed *)
+Definition validate_message_auth (raw d : bytes) : result bool :=
+  o <- find_attr80 raw;;
+  match o with
+  | None => Ok true
+  | Some off =>
+    _a <- sl 4 20 raw;;                        (* tmp[4+i] = 0 *)
+    _z <- sl off (off + 16) raw;;              (* tmp[offset+i] = 0 *)
+    w <- sl off (off + 16) raw;;
+    Ok (if list_eq_dec N.eq_dec d w then true else false)
+  end.
+(* coa.go readLoop: raw = raw[:binary.BigEndian.Uint16(raw[2:4])] — executed only after radius.Parse accepted the
+   datagram; what Parse guarantees (20 <= declared length <= len) is a hypothesis of the totality theorem *)
+Definition coa_trim (raw : bytes) : result bytes :=
+  l <- (s <- sl 2 4 raw;; u16at 0 s);; sl 0 l raw.
+
+(* CoA attribute accessors over the attribute list the third-party parser returns *)
+Definition attrs := list (N * bytes).
+Fixpoint first_attr (ty : N) (ok : bytes -> bool) (l : attrs) : option bytes :=
+  match l with [] => None | (t, v) :: r => if (t =? ty) && ok v then Some v else first_attr ty ok r end.
+(* resolveCoATarget: 1 Acct-Session-Id, 2 Framed-IP-Address, 3 User-Name, 4 Framed-IPv6-Address, 0 missing.
+   A string attribute only counts when non-empty (`if acctSessID == ""` keeps looking). *)
+Definition nonempty (v : bytes) : bool := negb (lenN v =? 0).
+Definition resolve_coa_target (l : attrs) : N * bytes :=
+  match first_attr 44 nonempty l with Some v => (1, v) | None =>
+  match first_attr 8 (fun v => lenN v =? 4) l with Some v => (2, v) | None =>
+  match first_attr 1 nonempty l with Some v => (3, v) | None =>
+  match first_attr 168 (fun v => lenN v =? 16) l with Some v => (4, v) | None => (0, []) end end end end.
+Fixpoint has_service_type (value : N) (l : attrs) : result bool :=
+  match l with
+  | [] => Ok false
+  | (t, v) :: r =>
+    if (t =? 6) && (lenN v =? 4) then (x <- u32at 0 v;; if x =? value then Ok true else has_service_type value r)
+    else has_service_type value r
+  end.
+Fixpoint event_timestamp (l : attrs) : result N :=
+  match l with
+  | [] => Ok 0
+  | (t, v) :: r => if (t =? 55) && (lenN v =? 4) then u32at 0 v else event_timestamp r
+  end.
+Definition ident_attr (t : N) : bool :=
+  (t =? 1) || (t =? 8) || (t =? 44) || (t =? 168) || (t =? 32) || (t =? 4) || (t =? 5) || (t =? 31) || (t =? 61) ||
+  (t =? 87) || (t =? 55) || (t =? 80) || (t =? 33) || (t =? 101).
+Definition has_non_ident (l : attrs) : bool := existsb (fun tv => negb (ident_attr (fst tv))) l.
+(* validateNASIdentifier: 0 ok, 1 mismatch (first NAS-Identifier decides) *)
+Fixpoint validate_nas (expected : bytes) (l : attrs) : N :=
+  match l with
+  | [] => 0
+  | (t, v) :: r =>
+    if t =? 32 then (if negb (lenN expected =? 0) && negb (if list_eq_dec N.eq_dec v expected then true else false) then 1 else 0)
+    else validate_nas expected r
+  end.
+
+(* internal/ipoe/dhcpv4.go getDHCPMessageType / getDHCPOption over the decoded option list *)
+Fixpoint ipoe_msg_type (l : attrs) : result N :=
+  match l with
+  | [] => Ok 0
+  | (t, v) :: r => if (t =? 53) && (lenN v =? 1) then idx 0 v else ipoe_msg_type r
+  end.
+Definition ipoe_get_option (ty : N) (l : attrs) : option bytes := first_attr ty (fun _ => true) l.
+
+(* internal/l2tp/ppp.go dispatchPPPFrame: optional HDLC address/control, 2-byte protocol, then HandleFrame *)
+Definition l2tp_dispatch_ppp (v : variant) (cfg : dcfg) (frame : bytes) : result route :=
+  fr <- (if 2 <=? lenN frame then
+           (a <- idx 0 frame;; c <- idx 1 frame;;
+            if (a =? 255) && (c =? 3) then slf 2 frame else Ok frame)
+         else Ok frame);;
+  if lenN fr <? 2 then Err 3 else
+  proto <- (s <- sl 0 2 fr;; u16at 0 s);;
+  if (proto =? 33) || (proto =? 87) then Ok RNone else
+  p <- slf 2 fr;; handle_frame v cfg proto p.
+
+(* ------------------------------------------------------------------ *)
 (* Bounded worker pool / bounded hand-off queue on the receive path:
    internal/pppoe/dhcpv6.go dispatchDHCPv6 (16-slot dhcp6Sem, the handler runs under the session lock s.mu, every
    worker needs s.mu before it can finish), internal/pppoe/session.go onIPv6CPUp (raKicks), internal/ipoe
@@ -911,5 +1011,18 @@ Definition run (v : variant) (entry : N) (na : list N) (ba : list bytes) : resul
   if entry =? 51 then (rmap pkt4_toks (dhcp_parse b)) else
   if entry =? 52 then (rmap msg4_toks (parse_message4 b)) else
   if entry =? 70 then Ok (pool_burst (arg 0 na) (arg 1 na)) else
+  if entry =? 61 then rmap (fun x => [tbool x]) (is_authentic_reply b (barg 1 ba) (barg 2 ba)) else
+  if entry =? 62 then rmap (fun x => [tbool x]) (validate_request_auth b (barg 1 ba)) else
+  if entry =? 63 then rmap (fun x => [tbool x]) (validate_message_auth b (barg 1 ba)) else
+  if entry =? 64 then
+    (let l := combine na (skipn 1 ba) in
+     st <- has_service_type 8 l;; ts <- event_timestamp l;;
+     Ok [TN (fst (resolve_coa_target l)); TB (snd (resolve_coa_target l)); tbool st; TN ts; tbool (has_non_ident l);
+         TN (validate_nas b l)]) else
+  if entry =? 65 then
+    (let l := combine (skipn 1 na) ba in
+     mt <- ipoe_msg_type l;; Ok [TN mt; tob (ipoe_get_option (arg 0 na) l)]) else
+  if entry =? 66 then
+    rmap route_toks (l2tp_dispatch_ppp v (mk_dcfg (negb (arg 0 na =? 0)) (negb (arg 1 na =? 0)) (negb (arg 2 na =? 0))) b) else
   if entry =? 60 then (rmap (fun o => match o with None => [TNil] | Some (off, w) => [TN off; TB w] end) (attr80_window b)) else
   Err 99.
